@@ -162,6 +162,12 @@ func isInductionPhi(v ssa.Value, h *ssa.BasicBlock) bool {
 }
 
 func loopInvariant(v ssa.Value, body map[*VNode]bool) bool {
+	return loopInvariantD(v, body, 0)
+}
+
+// loopInvariantD: defined outside the loop, or recomputed each iteration from
+// invariant operands (arithmetic, len, loads of fields no store in the loop touches).
+func loopInvariantD(v ssa.Value, body map[*VNode]bool, d int) bool {
 	in, ok := v.(ssa.Instruction)
 	if !ok {
 		return true // const, param, global
@@ -170,7 +176,41 @@ func loopInvariant(v ssa.Value, body map[*VNode]bool) bool {
 		return true
 	}
 	_, n := nodeOfInstr(in)
-	return n == nil || !body[n]
+	if n == nil || !body[n] {
+		return true
+	}
+	if d > 6 {
+		return false
+	}
+	switch x := v.(type) {
+	case *ssa.BinOp:
+		return loopInvariantD(x.X, body, d+1) && loopInvariantD(x.Y, body, d+1)
+	case *ssa.Convert:
+		return loopInvariantD(x.X, body, d+1)
+	case *ssa.FieldAddr:
+		return loopInvariantD(x.X, body, d+1)
+	case *ssa.Call:
+		if b, ok := x.Call.Value.(*ssa.Builtin); ok && (b.Name() == "len" || b.Name() == "cap") {
+			return loopInvariantD(x.Call.Args[0], body, d+1)
+		}
+	case *ssa.UnOp:
+		if x.Op != token.MUL {
+			return loopInvariantD(x.X, body, d+1)
+		}
+		if !loopInvariantD(x.X, body, d+1) {
+			return false
+		}
+		addr := canon(x.X)
+		for bn := range body {
+			for _, bi := range bn.Instrs {
+				if st, ok := bi.(*ssa.Store); ok && canon(st.Addr) == addr {
+					return false
+				}
+			}
+		}
+		return true
+	}
+	return false
 }
 
 // fullRangeLoop checks that the loop containing `at` visits every index: all
